@@ -32,7 +32,7 @@ import json,sys
 src,dst,rc0,rc1,tests=sys.argv[1:6]
 try: m=json.load(open(src))
 except Exception as e: m={"meta_unreadable": str(e)}
-m["round"]=6
+m["round"]=int(__import__("os").environ.get("SEED_ROUND","7"))
 m["confirmed_by_me"]={"tests": tests, "demo_exit_without_patch": rc0, "demo_exit_with_patch": rc1,
   "how": "tools/confirm_seed.sh in the sub-agent's scratch worktree: clean tree -> demo exit 0; git apply patch.diff -> cargo test --offline --workspace green (171 lib tests), demo exit non-zero; tree restored"}
 json.dump(m,open(dst,"w"),indent=1)
